@@ -94,6 +94,42 @@ func normRoot(e ast.Expr) string {
 	return s
 }
 
+// selChain: e as root identifier plus the chain of selected names, hops through embedded
+// fields dropped (g.GlobalIdent.GlobalName and g.GlobalName are the same field) and niladic
+// method calls kept as `Name()`.
+func selChain(info *types.Info, e ast.Expr) (*ast.Ident, []string, bool) {
+	var names []string
+	for {
+		switch x := unparen(e).(type) {
+		case *ast.Ident:
+			for i, j := 0, len(names)-1; i < j; i, j = i+1, j-1 {
+				names[i], names[j] = names[j], names[i]
+			}
+			return x, names, true
+		case *ast.SelectorExpr:
+			if sel, ok := info.Selections[x]; ok && sel.Kind() == types.FieldVal {
+				if v, ok := sel.Obj().(*types.Var); ok && v.Embedded() {
+					e = x.X
+					continue
+				}
+			}
+			names = append(names, x.Sel.Name)
+			e = x.X
+		case *ast.CallExpr:
+			se, ok := unparen(x.Fun).(*ast.SelectorExpr)
+			if !ok || len(x.Args) != 0 {
+				return nil, nil, false
+			}
+			names = append(names, se.Sel.Name+"()")
+			e = se.X
+		case *ast.StarExpr:
+			e = x.X
+		default:
+			return nil, nil, false
+		}
+	}
+}
+
 func ruleELIDE(c *Ctx) []Obligation {
 	var obs []Obligation
 	// reader: case *ast.Comdat: name := <default>; if n, ok := X.Name(); ok { name = … }
@@ -227,6 +263,67 @@ func ruleELIDE(c *Ctx) []Obligation {
 					o.Detail = fmt.Sprintf("printer and translator both use %s", want)
 				}
 				obs = append(obs, o)
+			}
+			// … or a field of a parameter (writeComdat(buf, sep, comdat, ident GlobalIdent) comparing with
+			// ident.GlobalName): judged at each call with the argument's root and the joined field path
+			if id := rootIdent(other); id != nil && unparen(other) != ast.Expr(id) {
+				sig := fn.Type().(*types.Signature)
+				for pi := 0; pi < sig.Params().Len(); pi++ {
+					if info.ObjectOf(id) != sig.Params().At(pi) {
+						continue
+					}
+					// a parameter that is the entity itself (headerString(f *Func)) is judged in place
+					if pn := namedOf(sig.Params().At(pi).Type()); pn != nil {
+						if _, has := readerDefault[typeKey(pn)]; has {
+							break
+						}
+					}
+					_, tail, ok1 := selChain(info, other)
+					if !ok1 {
+						break
+					}
+					c.eachFunc(pkgIR, func(p2 *packages.Package, fd2 *ast.FuncDecl, caller *types.Func) {
+						ast.Inspect(fd2.Body, func(m ast.Node) bool {
+							call, ok := m.(*ast.CallExpr)
+							if !ok || calleeOf(p2.TypesInfo, call) != fn || pi >= len(call.Args) {
+								return true
+							}
+							root, head, ok2 := selChain(p2.TypesInfo, call.Args[pi])
+							n := (*types.Named)(nil)
+							if ok2 {
+								n = namedOf(p2.TypesInfo.TypeOf(root))
+							}
+							if n == nil {
+								return true
+							}
+							k := typeKey(n)
+							o := Obligation{Key: fmt.Sprintf("%s omits the comdat name of %s when it equals the default", funcKey(caller), k), Pos: c.pos(call.Pos()), Verdict: OK}
+							want, has := readerDefault[k]
+							got := "$" + strings.Join(append(append([]string{""}, head...), tail...), ".")
+							switch {
+							case !has:
+								o.Verdict, o.Detail = UNDECIDED, "no translator case for *ast.Comdat fills a "+k
+							case got != want:
+								o.Verdict = VIOL
+								o.Detail = fmt.Sprintf("the printer writes the bare `comdat` when Comdat.Name == %s, the translator (%s) resolves a bare `comdat` to %s: for an entity on which the two differ the printed text names another comdat (or none)", got, readerPos[k], want)
+							default:
+								o.Detail = fmt.Sprintf("printer and translator both use %s", want)
+							}
+							// several calls from one printer share a key: keep the worst verdict
+							for i := range obs {
+								if obs[i].Rule == o.Rule && obs[i].Key == o.Key {
+									if obs[i].Verdict == OK && o.Verdict != OK {
+										obs[i] = o
+									}
+									return true
+								}
+							}
+							obs = append(obs, o)
+							return true
+						})
+					})
+					return true
+				}
 			}
 			// the default compared with may be a parameter of a shared helper
 			// (writeComdat(buf, sep, comdat, name)): judged at each call with the argument passed
@@ -1112,7 +1209,17 @@ func ruleENCSET(c *Ctx) []Obligation {
 			o.Detail = "verbatim set {" + describeSet(set) + "} contains neither the quote nor the backslash"
 		}
 	}
-	// (1) verbatim set of EscapeString: the `valid` predicate literals passed to enc.Escape
+	// (1) verbatim set of EscapeString: the `valid` predicate literals passed to enc.Escape — or to
+	// any other function of internal/enc that takes the byte class as a func(byte) bool parameter
+	escapeEngines := map[*types.Func]int{}
+	c.eachFunc(pkgENC, func(p *packages.Package, fd *ast.FuncDecl, fn *types.Func) {
+		ps := fn.Type().(*types.Signature).Params()
+		for i := 0; i < ps.Len(); i++ {
+			if isByteTest(ps.At(i).Type()) {
+				escapeEngines[fn] = i
+			}
+		}
+	})
 	var validSet [256]bool
 	haveValid := false
 	nEsc := map[*types.Func]int{}
@@ -1132,8 +1239,19 @@ func ruleENCSET(c *Ctx) []Obligation {
 			})
 			ast.Inspect(fd.Body, func(nd ast.Node) bool {
 				call, ok := nd.(*ast.CallExpr)
-				if !ok || !isPkgFunc(calleeOf(info, call), pkgENC, "Escape") || len(call.Args) != 2 {
+				if !ok || len(call.Args) != 2 {
 					return true
+				}
+				if pi, isEngine := escapeEngines[calleeOf(info, call)]; !isEngine || pi != 1 {
+					return true
+				}
+				// an engine handing its own predicate parameter on to another engine
+				if id, ok := unparen(call.Args[1]).(*ast.Ident); ok {
+					if _, isEngine := escapeEngines[fn]; isEngine {
+						if v, ok := info.ObjectOf(id).(*types.Var); ok && isByteTest(v.Type()) {
+							return true
+						}
+					}
 				}
 				nEsc[fn]++
 				o := Obligation{Key: fmt.Sprintf("%s: byte class passed to enc.Escape #%d", funcKey(fn), nEsc[fn]), Pos: c.pos(call.Pos()), Verdict: OK}
@@ -1195,8 +1313,8 @@ func ruleENCSET(c *Ctx) []Obligation {
 	}
 	// (2) verbatim-copy conditions inside internal/enc: if COND(b) { buf[j] = b … }
 	c.eachFunc(pkgENC, func(p *packages.Package, fd *ast.FuncDecl, fn *types.Func) {
-		if fn.Name() == "Escape" || fn.Name() == "Unescape" {
-			return // Escape's class is its argument (1); Unescape copies decoded bytes
+		if _, isEngine := escapeEngines[fn]; isEngine || fn.Name() == "Unescape" {
+			return // an engine's class is its argument (1); Unescape copies decoded bytes
 		}
 		n := 0
 		ast.Inspect(fd.Body, func(nd ast.Node) bool {
@@ -1349,6 +1467,17 @@ func ruleENCSET(c *Ctx) []Obligation {
 		})
 	}
 	return obs
+}
+
+// isByteTest: func(byte) bool.
+func isByteTest(t types.Type) bool {
+	sig, ok := t.Underlying().(*types.Signature)
+	if !ok || sig.Params().Len() != 1 || sig.Results().Len() != 1 {
+		return false
+	}
+	pb, ok1 := sig.Params().At(0).Type().Underlying().(*types.Basic)
+	rb, ok2 := sig.Results().At(0).Type().Underlying().(*types.Basic)
+	return ok1 && ok2 && pb.Kind() == types.Uint8 && rb.Kind() == types.Bool
 }
 
 func isStringNamed(t types.Type) bool {
@@ -2734,6 +2863,8 @@ func ruleSCAFNAME(c *Ctx) []Obligation {
 // encClassOfHelper applies the ENC-CLASS test inside a helper whose first
 // parameter is the token text: the first classifier call must see that text
 // before any unquoting of it.
+var encClassDepth int
+
 func encClassOfHelper(c *Ctx, fd *ast.FuncDecl, isClassifier, isUnquoter func(*types.Func) bool) (verdict, detail string, pos token.Pos) {
 	info := c.declPkg[fd].TypesInfo
 	type def struct {
@@ -2782,7 +2913,23 @@ func encClassOfHelper(c *Ctx, fd *ast.FuncDecl, isClassifier, isUnquoter func(*t
 	}
 	ast.Inspect(fd.Body, func(nd ast.Node) bool {
 		call, ok := nd.(*ast.CallExpr)
-		if !ok || len(call.Args) == 0 || !isClassifier(calleeOf(info, call)) || verdict != "" {
+		if !ok || len(call.Args) == 0 || verdict != "" {
+			return true
+		}
+		// the decision one helper further down (unnamedID(ident) → strconv.ParseUint): judged
+		// there, provided the text handed on has not been unquoted here
+		if callee := calleeOf(info, call); callee != nil && callee.Pkg() != nil && callee.Pkg().Path() == pkgASM && !isClassifier(callee) && !isUnquoter(callee) {
+			if hfd := c.funcDecl(callee); hfd != nil && hfd.Body != nil && hfd != fd && encClassDepth < 3 && !unq(call.Args[0], call.Pos(), 0) {
+				encClassDepth++
+				v, d, p2 := encClassOfHelper(c, hfd, isClassifier, isUnquoter)
+				encClassDepth--
+				if v != "" {
+					verdict, detail, pos = v, d+" (in "+callee.Name()+")", p2
+				}
+			}
+			return true
+		}
+		if !isClassifier(calleeOf(info, call)) {
 			return true
 		}
 		pos = call.Pos()
